@@ -381,9 +381,10 @@ func (w *witness) FromJSON(s *schema.Schema, data []byte) error {
 	// value failed. All this is not really performant for large witnesses, but again, JSON
 	// shouldn't be used in perf-critical scenario.
 	var chValues chan any
+	nbSecret := s.NbSecret // the schema belongs to the caller and must not be modified
 	if publicOnly {
 		chValues = make(chan any, len(publicValues))
-		s.NbSecret = 0
+		nbSecret = 0
 	} else {
 		chValues = make(chan any, len(publicValues)+len(secretValues))
 	}
@@ -403,5 +404,5 @@ func (w *witness) FromJSON(s *schema.Schema, data []byte) error {
 		}
 	}()
 
-	return w.Fill(s.NbPublic, s.NbSecret, chValues)
+	return w.Fill(s.NbPublic, nbSecret, chValues)
 }
